@@ -151,13 +151,20 @@ Definition obs_of_built (g : built) : built_obs :=
        (f_name (b_func g)) (f_doc (b_func g)) (f_module (b_func g))
        (f_dict (b_func g)) (f_async (b_func g)).
 
-Definition model_case (f : pyfunc) (steps : list step) (fwd : bool) (partial : nat) (calls : list call) : c13_case :=
-  mkCase f steps fwd partial calls (func_sig f) (f_async f) (map (call_func f) calls)
+Definition model_case (f : pyfunc) (steps : list step) (fwd : bool) (partial : nat) (kinds : list wkind)
+           (calls : list call) : c13_case :=
+  mkCase f steps fwd partial kinds calls (func_sig f) (f_async f) (map (call_func f) calls)
          (func_sig f) (f_dict f) (model_again f)
          (map obs_of_built (fst (run_steps f steps))) (snd (run_steps f steps))
          (match snd (run_steps f steps) with
           | None => map (call_top f (rev (fst (run_steps f steps))) fwd partial) calls
           | Some _ => []
+          end)
+         (match snd (run_steps f steps) with
+          | None => if existsb (fun o => is_ok (snd o))
+                               (map (call_top f (rev (fst (run_steps f steps))) fwd partial) calls)
+                    then extra_awaits f (fst (run_steps f steps)) kinds else 0
+          | Some _ => 0
           end)
          (match snd (run_steps f steps) with
           | None => map (lower_saws (rev (fst (run_steps f steps))) fwd partial) calls
@@ -538,18 +545,62 @@ Proof.
   - rewrite app_length. simpl. lia.
 Qed.
 
+(* ---- awaiting: no coroutine layer is left over ---------------------------------------------------- *)
+Lemma run_steps_async : forall steps h, wf_func h -> steps_nonzero steps ->
+  Forall (fun g => f_async (b_func g) = f_async h) (fst (run_steps h steps)).
+Proof.
+  induction steps as [|st r IH]; intros h WF NZ; [constructor|].
+  inversion NZ as [|? ? NZ1 NZr]; subst. rewrite run_steps_cons.
+  pose proof (update_wrapper_opt_refines (s_options st) (s_id st) h (s_injected st) (s_expected st) WF NZ1) as R.
+  destruct (update_wrapper_opt (s_options st) (s_id st) h (s_injected st) (s_expected st)) as [g|e]; [|constructor].
+  destruct (spec_wraps_opt (o_inject_to_varkw (s_options st)) (func_sig h) (s_injected st) (s_expected st)) as [s'|e']; [|exfalso; exact R].
+  destruct R as [_ [_ [_ [_ [A [_ [_ [_ [_ [[WFg _] _]]]]]]]]]].
+  cbn [fst]. constructor; [exact A|].
+  eapply Forall_impl; [|apply (IH (b_func g) WFg NZr)]. intros g0 H. simpl in H. congruence.
+Qed.
+
+(* which wrappers make sense: one per step; an async def wrapper only around an async function *)
+Definition kinds_ok (f : pyfunc) (steps : list step) (kinds : list wkind) : Prop :=
+  length kinds = length steps /\ (f_async f = false -> Forall (fun k => k = WSync) kinds).
+
+Lemma stack_layers_same a : forall gs kinds,
+  Forall (fun g => f_async (b_func g) = a) gs -> length kinds = length gs ->
+  (a = false -> Forall (fun k => k = WSync) kinds) ->
+  stack_layers (if a then 1 else 0) gs kinds = Some (if a then 1 else 0).
+Proof.
+  induction gs as [|g r IH]; intros kinds FA LN SY; [reflexivity|].
+  destruct kinds as [|k ks]; [discriminate LN|].
+  inversion FA as [|x0 l0 A1 A2]; subst x0 l0. cbn [stack_layers]. rewrite <- A1.
+  assert (STEP : built_layers (f_async (b_func g)) (wrapper_layers k (if f_async (b_func g) then 1 else 0))
+                 = Some (if f_async (b_func g) then 1 else 0)).
+  { destruct (f_async (b_func g)) eqn:AS.
+    - destruct k; reflexivity.
+    - specialize (SY (eq_sym A1)). inversion SY; subst. reflexivity. }
+  rewrite STEP, A1. apply IH; [exact A2 | simpl in LN; congruence |].
+  intro F. specialize (SY F). inversion SY; assumption.
+Qed.
+
+Theorem no_extra_awaits f steps kinds : wf_func f -> steps_nonzero steps -> kinds_ok f steps kinds ->
+  snd (run_steps f steps) = None ->
+  extra_awaits f (fst (run_steps f steps)) kinds = 0.
+Proof.
+  intros WF NZ [LN SY] E. unfold extra_awaits, func_layers.
+  destruct (run_steps_wf steps f WF NZ) as [_ LEN]. specialize (LEN E).
+  rewrite (stack_layers_same (f_async f) _ kinds (run_steps_async steps f WF NZ)); [apply Nat.sub_diag | congruence | exact SY].
+Qed.
+
 (* THE MAIN REFINEMENT: for every well-formed base function, every non-empty
    stack of wraps steps and all calls with distinct keywords, the model's
    observation satisfies the Spec predicate [holds]. *)
-Theorem model_holds f steps fwd partial calls :
-  wf_func f -> steps <> [] -> steps_nonzero steps ->
+Theorem model_holds f steps fwd partial kinds calls :
+  wf_func f -> steps <> [] -> steps_nonzero steps -> kinds_ok f steps kinds ->
   Forall (fun c => NoDup (keys (c_kw c))) calls ->
   (fwd = true -> forallb plain_step steps = true) ->
   (fwd = false -> partial_ok steps partial = true) ->
-  holds (model_case f steps fwd partial calls) = true.
+  holds (model_case f steps fwd partial kinds calls) = true.
 Proof.
-  intros WF NE NZ NDc PL PA. unfold holds, model_case.
-  cbn [k_f k_fsig k_fasync k_calls k_direct k_steps k_forward k_partial k_levels k_fail k_top_calls k_lower_saws k_fsig_after k_fdict_after k_again].
+  intros WF NE NZ KO NDc PL PA. unfold holds, model_case.
+  cbn [k_f k_fsig k_fasync k_calls k_direct k_steps k_forward k_partial k_levels k_fail k_top_calls k_lower_saws k_fsig_after k_fdict_after k_again k_wkinds k_extra].
   rewrite (func_sig_wf f WF).
   assert (DIR : map (bind (sg_params (func_sig f))) calls = map (call_func f) calls).
   { apply map_ext. intro c. unfold call_func. rewrite (sig_of_func_sig f (wf_len f WF)). reflexivity. }
@@ -558,7 +609,11 @@ Proof.
   destruct (levels_model f steps f WF) as [top [LO REST]].
   { repeat split. }
   { exact NZ. }
-  rewrite LO. destruct (snd (run_steps f steps)) as [e|] eqn:E; [reflexivity|].
+  rewrite LO.
+  pose proof (no_extra_awaits f steps kinds WF NZ KO) as NX.
+  destruct (snd (run_steps f steps)) as [e|] eqn:E; [reflexivity|].
+  rewrite (NX eq_refl). replace (if existsb _ _ then 0 else 0) with 0 by (destruct (existsb _ _); reflexivity).
+  cbn [Nat.eqb andb].
   destruct (REST eq_refl) as [TOP PLN].
   destruct (rev (fst (run_steps f steps))) as [|gtop below] eqn:RV.
   - (* a non-empty stack that did not stop built at least one level *)
@@ -599,16 +654,16 @@ Proof.
   cbn [fst]. constructor; [exists s'; exact SG | apply IH; assumption].
 Qed.
 
-Theorem model_agrees f steps fwd partial calls :
+Theorem model_agrees f steps fwd partial kinds calls :
   wf_func f -> steps_nonzero steps ->
-  agree (model_case f steps fwd partial calls) = true.
+  agree (model_case f steps fwd partial kinds calls) = true.
 Proof.
   intros WF NZ. unfold agree, model_case.
-  cbn [k_f k_fsig k_fasync k_calls k_direct k_steps k_forward k_partial k_levels k_fail k_top_calls k_lower_saws k_fsig_after k_fdict_after k_again].
+  cbn [k_f k_fsig k_fasync k_calls k_direct k_steps k_forward k_partial k_levels k_fail k_top_calls k_lower_saws k_fsig_after k_fdict_after k_again k_wkinds k_extra].
   rewrite (sig_of_func_sig f (wf_len f WF)). cbn [res_eqb]. rewrite sig_eqb_refl, bool_eqb_refl.
   rewrite (list_eqb_refl _ rb_eqb_refl), dict_equiv_refl, (option_eqb_refl _ sig_eqb_refl). cbn [andb].
   pose proof (run_steps_sigs steps f WF NZ) as SG.
   destruct (run_steps f steps) as [gs e]. cbn [fst snd] in *.
   rewrite (forall2b_level_agree gs SG), (option_eqb_refl _ exn_eqb_refl). cbn [andb].
-  destruct e; [reflexivity|]. rewrite (list_eqb_refl _ call_obs_eqb_refl). apply (list_eqb_refl _ (list_eqb_refl _ call_eqb_refl)).
+  destruct e; [reflexivity|]. rewrite Nat.eqb_refl, (list_eqb_refl _ call_obs_eqb_refl). apply (list_eqb_refl _ (list_eqb_refl _ call_eqb_refl)).
 Qed.
